@@ -44,6 +44,8 @@ func (a act) String() string {
 			return fmt.Sprintf("WINDOW_UPDATE(0,%d)", a.N)
 		}
 		return fmt.Sprintf("WINDOW_UPDATE(%d,%d)", 2*a.S+1, a.N)
+	case "ga":
+		return "GOAWAY(last=0,NO_ERROR)"
 	case "set":
 		return fmt.Sprintf("SETTINGS(IWS=%d)", a.N)
 	case "mfs":
@@ -96,6 +98,8 @@ type config struct {
 	// resume; while it does not read, nothing the server wrote is seen or judged, and the client sends only DATA that
 	// fits the windows it has seen (what the server granted in frames it could not yet write is not known to it)
 	Pause bool
+	// GoAway: the client may send GOAWAY(NO_ERROR) once (it will open no more streams; the streams it has go on)
+	GoAway bool
 }
 
 // ---------------------------------------------------------------- handler control
@@ -148,6 +152,7 @@ type world struct {
 	traceCap            int // >0: keep only about this many most recent trace lines
 	srvIWS, srvMaxFrame int64
 	paused              bool // the client does not read
+	goneAway            bool // the client has sent GOAWAY
 }
 
 func newWorld(cfg config) *world {
@@ -484,8 +489,11 @@ func (w *world) enabled() []act {
 			nOpen++
 		}
 	}
-	if w.opened-w.base < cfg.MaxStreams && nOpen < cfg.MaxStreams {
+	if w.opened-w.base < cfg.MaxStreams && nOpen < cfg.MaxStreams && !w.goneAway {
 		out = append(out, act{K: "open", S: w.opened})
+	}
+	if cfg.GoAway && !w.goneAway {
+		out = append(out, act{K: "ga"})
 	}
 	lastClosed := -1
 	for i := w.base; i < w.opened; i++ {
@@ -605,6 +613,9 @@ func (w *world) apply(a act) {
 		w.send(h2wire.Settings(h2wire.Setting{ID: 4, Val: uint32(a.N)}))
 	case "mfs":
 		w.send(h2wire.Settings(h2wire.Setting{ID: 5, Val: uint32(a.N)}))
+	case "ga":
+		w.goneAway = true
+		w.send(h2wire.GoAway(0, 0, nil))
 	case "pause":
 		w.paused = true
 		w.conn.Sv.SetWriteCap(1)
@@ -646,7 +657,7 @@ func (w *world) drainReads() {
 func (w *world) key() string {
 	var b strings.Builder
 	b.WriteString(w.led.Key())
-	fmt.Fprintf(&b, "#o%d p%v|", w.opened, w.paused)
+	fmt.Fprintf(&b, "#o%d p%v g%v|", w.opened, w.paused, w.goneAway)
 	for _, id := range w.hids() {
 		h := w.hs[id]
 		if int(id/2) < w.base {
